@@ -107,7 +107,7 @@ pub fn bad(w: &mut RouterWorld, cfg: &Cfg, ci: usize, kind: u8) {
     w.send(ci, txs);
 }
 
-pub const BATCH_KINDS: u8 = 6;
+pub const BATCH_KINDS: u8 = 8;
 
 pub fn batch(w: &mut RouterWorld, cfg: &Cfg, ci: usize, kind: u8) {
     let f0 = cfg.filters.first().cloned().unwrap_or_else(|| "a/b".into());
@@ -137,6 +137,15 @@ pub fn batch(w: &mut RouterWorld, cfg: &Cfg, ci: usize, kind: u8) {
             let b = make_publish(w, cfg, ci, 0, 2, false, false, 0);
             let c = make_publish(w, cfg, ci, 0, 1, false, false, 0);
             vec![a, b, c]
+        }
+        6 => {
+            // a publish followed, in the same batch, by an unsolicited acknowledgement
+            let a = make_publish(w, cfg, ci, 0, 0, false, false, 0);
+            vec![a, Tx::PubAck(999)]
+        }
+        7 => {
+            let a = make_publish(w, cfg, ci, 0, 1, false, false, 0);
+            vec![a, Tx::Disconnect]
         }
         _ => {
             let pkid = next_pkid(w, ci);
